@@ -406,7 +406,7 @@ def run(rep, tier, seed, only=None):
     rep.bounds = {"(n,m)": "all pairs with n+m<=8 and widths<=5 + diagonal to 7x7 (quick); all <=8x8 + 9x9 per mode (thorough)",
                   "squares": "n<=14 (quick) / <=20 (thorough)", "twins": f"guards 20->6, 18->4 ({hits[0]} literals), 48->4, [49,53]->[5] ({hits[1]} literals); widths <= 8 (mul), <= 12 (square)"}
     rep.outside = ["MulMode.ALTER above the directly decided widths (it drops carries that are zero only for magnitude reasons, which the integer conservation argument cannot see)",
-                   "bit-exact leaf multipliers wider than 9x9 inside the true-width recursion (assumed, see bounds); monolithic true-width equivalence is out of the solver's reach",
+                   "monolithic true-width equivalence of the recursive multipliers (out of the solver's reach; decided compositionally instead); leaves whose operand list repeats a gate (padding) fall back to 'assumed' and are counted in the evidence",
                    "widths above the listed ones"]
     rep.rule = "case = (mode, widths, endianness, host kind); operand values quantified by z3 (out == bvmul, product fits)"
     rep.explanation = "z3 decides out == a*b for all operand values per enumerated configuration"
@@ -445,5 +445,4 @@ def run(rep, tier, seed, only=None):
         rep.bounds["wide column compression (linear conservation)"] = ("POW2_M1 25x25..40x24, Wallace 2x30..33x5 and 24x24, Dadda 24x24..32x32, DEFAULT 12x12..32x32 (inner MDFA/Stockmeyer blocks with virtual pair bits), squarer POW2_M1 25..40 (quick); up to 64x64 and all 2xk, k<=63 (thorough): "
                                                                         "every summation block exact (bit-vectors over the real gates) + integer conservation of partial products and carries")
         rep.bounds["true-width recursion (compositional)"] = ("Karatsuba 18x18, 20x20, 21x21, 23x17 and squarer 48, 50 (quick); 20..26, 24x15, 14x25, 36, 40, 42x43, squares 51, 56, 64 (thorough): "
-                                                              "recombination + wiring + algebra lemma discharged per recursive node; leaf multipliers wider than "
-                                                              + ("9x9" if thorough else "6x6") + " are assumed (same width-generic code as the directly decided widths)")
+                                                              "recombination + wiring + algebra lemma discharged per recursive node; every leaf multiplier / half squarer proved in situ (direct bit-vector query when small, linear conservation over its own recorded blocks otherwise)")
